@@ -64,6 +64,9 @@ MUTANTS = [
      "                    data[xmin: xmax + 1, ymin: ymax + 1]\n"
      "                    / rmsimg[xmin: xmax + 1, ymin: ymax + 1]\n"
      "                )\n            )", "C13-R4"),
+    ("abs after the extremum (seed C13b)", "AegeanTools/source_finder.py",
+     "            snr = np.nanmax(\n                abs(\n",
+     "            snr = abs(\n                np.nanmax(\n", "C13-R4"),
 ]
 TWINS = [
     ("filter reordered", "AegeanTools/source_finder.py",
@@ -317,10 +320,113 @@ def r3(ctx, prog):
                                                         nmax), node=ab[0])
 
 
+ABS = ("abs", "np.abs", "numpy.abs", "np.fabs", "numpy.fabs",
+       "np.absolute", "numpy.absolute")
+EXTREMA = ("np.nanmax", "np.nanmin", "np.max", "np.min", "np.amax",
+           "np.amin", "max", "min", "numpy.nanmax", "numpy.nanmin",
+           "np.nanargmax", "np.nanargmin", "np.argmax", "np.argmin",
+           "np.sort", "sorted", "np.argsort", "np.median", "np.nanmedian",
+           "np.percentile", "np.nanpercentile")
+SAME = ("np.where", "np.nan_to_num", "np.asarray", "np.array", "np.squeeze",
+        "np.ravel", "float", "np.float64", "np.nansum", "np.sum", "np.mean",
+        "np.nanmean", "np.copy")
+
+
+def parity(e, env, fnode=None, depth=0):
+    """How the value of e changes when the image (and background) change
+    sign: 'E' unchanged, 'O' negated, 'N' neither (e.g. max of a negated
+    array is minus the MIN), None = not derived from the pixel data."""
+    from .c08 import _resolve_local
+    if depth > 8:
+        return None
+    if isinstance(e, ast.Constant):
+        return "E"
+    if isinstance(e, ast.Name):
+        if e.id in env:
+            return env[e.id]
+        if fnode is not None:
+            r = _resolve_local(fnode, e)
+            if r is not e:
+                return parity(r, env, fnode, depth + 1)
+        return "E"
+    if isinstance(e, ast.Attribute):
+        return parity(e.value, env, fnode, depth + 1) \
+            if e.attr in ("T", "real") else "E"
+    if isinstance(e, ast.Subscript):
+        k = norm(e)
+        if k in env:
+            return env[k]
+        return parity(e.value, env, fnode, depth + 1)
+    if isinstance(e, ast.UnaryOp):
+        return parity(e.operand, env, fnode, depth + 1)
+    if isinstance(e, ast.BinOp):
+        l = parity(e.left, env, fnode, depth + 1)
+        r = parity(e.right, env, fnode, depth + 1)
+        if "N" in (l, r):
+            return "N"
+        if isinstance(e.op, (ast.Mult, ast.Div, ast.FloorDiv)):
+            return "E" if l == r else "O"
+        if isinstance(e.op, ast.Pow):
+            if isinstance(e.right, ast.Constant) and \
+                    isinstance(e.right.value, int):
+                return "E" if e.right.value % 2 == 0 else l
+            return "N" if l == "O" else "E"
+        if isinstance(e.op, (ast.Add, ast.Sub)):
+            if l == r:
+                return l
+            z = e.right if l == "O" else e.left
+            if isinstance(z, ast.Constant) and z.value == 0:
+                return "O"
+            return "N"
+        return "N" if "O" in (l, r) else "E"
+    if isinstance(e, ast.Call):
+        fn = norm(e.func)
+        args = list(e.args)
+        if isinstance(e.func, ast.Attribute) and fn not in ABS + EXTREMA + \
+                SAME and e.func.attr in ("max", "min", "argmax", "argmin"):
+            p = parity(e.func.value, env, fnode, depth + 1)
+            return "N" if p in ("O", "N") else "E"
+        ps = [parity(a, env, fnode, depth + 1) for a in args]
+        if fn in ABS:
+            return "N" if "N" in ps else "E"
+        if fn in EXTREMA:
+            return "N" if ("O" in ps or "N" in ps) else "E"
+        if "N" in ps:
+            return "N"
+        if "O" in ps:
+            return "O" if fn in SAME else "N"
+        return "E"
+    if isinstance(e, ast.Compare):
+        ps = [parity(x, env, fnode, depth + 1)
+              for x in [e.left] + list(e.comparators)]
+        return "N" if ("O" in ps or "N" in ps) else "E"
+    if isinstance(e, (ast.Tuple, ast.List)):
+        ps = {parity(x, env, fnode, depth + 1) for x in e.elts}
+        return ps.pop() if len(ps) == 1 else "N"
+    if isinstance(e, ast.IfExp):
+        ps = {parity(x, env, fnode, depth + 1) for x in (e.body, e.orelse)}
+        return ps.pop() if len(ps) == 1 else "N"
+    return "E"
+
+
+WORD = {"E": "unchanged", "O": "negated", "N": "neither unchanged nor "
+        "negated (an extremum taken before abs() picks the other end of "
+        "the negated data)"}
+
+
 def r4(ctx, prog):
-    ctx.rule("C13-R4", "sign-agnostic uses of pixel data go through abs(): "
-             "detection snr, summit ordering key, summit snr")
+    ctx.rule("C13-R4", "parity under image -> -image (pixel data and "
+             "background negate, noise does not): the detection "
+             "signal-to-noise, the summit ordering key and the summit "
+             "signal-to-noise compared with the seed clip are all UNCHANGED "
+             "(abs() is applied before any extremum)")
     fi = prog.func(BUILDER)
+    env = {p: "O" for p in fi.params if p in ("data", "curve", "summit")}
+    env.update({p: "E" for p in fi.params if p in ("rmsimg", "rms")})
+    if "data" not in env or "rmsimg" not in env:
+        raise AnalysisError("C13-R4: parameters data / rmsimg of %s" %
+                            BUILDER)
+    env["summit"] = "O"
     keys = []
     for c in walk_no_nested(fi.node):
         if isinstance(c, ast.Call) and norm(c.func) == "sorted":
@@ -330,35 +436,45 @@ def r4(ctx, prog):
     ctx.floor("C13-R4", len(keys), 1, "summit sort keys")
     for c, lam in keys:
         arg = lam.args.args[0].arg
-        # every use of the lambda argument must sit inside abs(...)
-        ok = True
-        for x in ast.walk(lam.body):
-            if isinstance(x, ast.Name) and x.id == arg:
-                inside = any(isinstance(a, ast.Call) and norm(a.func) in
-                             ("abs", "np.abs", "numpy.abs", "np.fabs") and
-                             any(x is y for y in ast.walk(a))
-                             for a in ast.walk(lam.body))
-                ok = ok and inside
-        ctx.check("C13-R4", fi, "summit order key " + norm(lam, 70), ok,
-                  "components are numbered in the order of this key; without "
-                  "abs() a negative island orders its summits faintest "
-                  "first, so the negated image yields a differently "
-                  "numbered (and, under max_summits, differently fitted) "
-                  "catalogue", node=lam)
+        # the sorted tuples are (pixel values, index bounds...)
+        kenv = dict(env)
+        kenv[arg] = "O"
+        for k in range(1, 6):
+            kenv["%s[%d]" % (arg, k)] = "E"
+        pk = parity(lam.body, kenv)
+        ctx.check("C13-R4", fi, "summit order key " + norm(lam, 70),
+                  pk == "E",
+                  "components are numbered in the order of this key, which "
+                  "is %s under negation of the image: a negative island "
+                  "orders its summits differently from its positive twin, so "
+                  "the negated image yields a differently numbered (and, "
+                  "under max_summits, differently fitted) catalogue" %
+                  WORD.get(pk, pk), node=lam)
     snrs = [s for s in walk_no_nested(fi.node) if isinstance(s, ast.Assign)
             and norm(s.targets[0]) == "snr"]
+    ctx.floor("C13-R4", len(snrs) + len(keys), 2, "summit snr definitions "
+              "and sort keys")
     for s in snrs:
-        ok = any(isinstance(a, ast.Call) and norm(a.func) in
-                 ("abs", "np.abs", "numpy.abs") for a in ast.walk(s.value))
-        ctx.check("C13-R4", fi, "summit signal-to-noise " + norm(s, 60), ok,
-                  "the summit acceptance test must use |data/rms|", node=s)
+        pk = parity(s.value, env, fi.node)
+        ctx.check("C13-R4", fi, "summit signal-to-noise " + norm(s, 60),
+                  pk == "E",
+                  "the summit acceptance test compares this value with the "
+                  "seed clip; it is %s under negation of the image, so a "
+                  "negative summit is accepted or rejected differently from "
+                  "its positive twin" % WORD.get(pk, pk), node=s)
     fisl = prog.func("source_finder.find_islands")
     sd = [s for s in walk_no_nested(fisl.node) if isinstance(s, ast.Assign)
           and norm(s.targets[0]) == "snr"]
-    ok = len(sd) == 1 and isinstance(sd[0].value, ast.BinOp) and \
-        isinstance(sd[0].value.left, ast.Call) and \
-        norm(sd[0].value.left.func) in ("abs", "np.abs", "numpy.abs")
+    fenv = {p: "O" for p in fisl.params if p in ("im", "bkg")}
+    fenv.update({p: "E" for p in fisl.params if p == "rms"})
+    if set(fenv) != {"im", "bkg", "rms"}:
+        raise AnalysisError("C13-R4: parameters im/bkg/rms of find_islands")
+    ok = len(sd) == 1 and parity(sd[0].value, fenv, fisl.node) == "E"
     ctx.check("C13-R4", fisl, "detection snr " + (norm(sd[0], 60) if sd
                                                  else "?"), ok,
               "islands must be detected on |im - bkg| / rms so that both "
-              "polarities are found", node=sd[0] if sd else fisl.node)
+              "polarities are found: the detection statistic must be "
+              "unchanged when the image and background are negated",
+              node=sd[0] if sd else fisl.node)
+
+
